@@ -58,7 +58,10 @@ EXPLANATION = ("Theorems (Props/C13.lean, about the definitions drv_c13 runs; th
                "at end of input, through every block parser, Theory/C13Mono.lean: the run-time progress checks of both stream loops are dead "
                "code), whole_eq_flatten, incremental_eq_whole, incremental_collection, readMany_prefix, "
                "yield_files_eq_successive_reads_newick (Tree.yield_from_files([a,b,..]) = successive TreeList.read calls, any number of Newick "
-               "sources), yield_files_append, array_add_trees_spec (add_trees records every tree in order with the weight rule and refuses "
+               "sources), yield_eq_list_nexus_labels + yield_files_eq_successive_reads_nexus (the NEXUS counterpart, both sides as the driver runs "
+               "them: whenever successive TreeList.read calls - a new non-attached reader per call - read the sources, the ONE attached iterator "
+               "with per-file reset delivers the same trees file after file and the same labels; hypothesis filesClean = setsClean per file; one "
+               "direction, success only), yield_files_append, array_add_trees_spec (add_trees records every tree in order with the weight rule and refuses "
                "exactly a differing rooting state), array_read_eq_list_then_add_newick / _nexus (TreeArray.read = TreeList.get into the "
                "array's namespace followed by add_trees past the burn-in), array_files_append (read_from_files over several sources = "
                "successive calls), array_keeps_entries, burn_in_spec, source_dispatch_irrelevant / source_keyword_exactly_one / "
@@ -74,9 +77,8 @@ EXPLANATION = ("Theorems (Props/C13.lean, about the definitions drv_c13 runs; th
                "loop, Theory/C13NsMono.lean - so a tree read earlier stays attached to the same taxa whatever is read later). "
                "Still re-checking progress at run time (a `stuck` answer would be a disagreement, never observed): the child loop inside the "
                "tree-statement parser. NOT proved: idempotence of a shared namespace (a second read of the same source from the namespace the "
-               "first one left delivers the same trees on the same taxa) - oracle and correspondence only; the several-source NEXUS iterator "
-               "vs successive reads (correspondence + oracle; the model resets per-file reader state, "
-               "fixes/C13-nexus-yielder-per-file-ntax.patch); NeXML. "
+               "first one left delivers the same trees on the same taxa) - oracle and correspondence only; the converse direction of the "
+               "NEXUS iterator theorems (fails by design on several TAXA blocks); NeXML. "
                "Generated documents avoid three input classes listed as known findings; their witnesses are replayed on every run.")
 
 ROUTE_TIMEOUT = 20
